@@ -549,7 +549,16 @@ class PVLParser(object):
                 "an Assignment-Statement."
             )
 
-        self.parse_around_equals(tokens)
+        try:
+            self.parse_around_equals(tokens)
+        except ValueError as err:
+            # The Parameter Name has already been consumed, so this is
+            # not a first-token mismatch that the caller can recover from.
+            tokens.throw(
+                ValueError,
+                f'Expecting "=" after the Parameter Name "{parameter_name}". '
+                f"{err}"
+            )
 
         try:
             # print(f'parameter name: {parameter_name}')
